@@ -2,8 +2,9 @@
 """C04 - a freshly written or touched block survives garbage collection for the TTL.
 
 GEN   specs/keepstore/KeepVolume.tla   MC_C04*.cfg  (system-call granularity; contract obligations, lock
-                                                    discipline, AckedSurvives; the model CONTAINS the genuine
-                                                    race KF-C04-1, excluded by name, and MC_C04_kf.cfg shows it)
+                                                    discipline, AckedSurvives; KF-C04-1 was repaired in 6f6002f,
+                                                    MC_C04_nofix.cfg shows the race in the model of the old code;
+                                                    KF-C04-2 is in the model, excluded by name)
                                        Gen_C04*.cfg (every schedule of PUT|TOUCH || DELETE|trash-item [|| untrash|
                                                     EmptyTrash] [|| ticks], up to commutation of invisible steps)
 RUN   harness/C04_keepstore            instrumented unix_volume.go (tools/instrument, built and run here on the
@@ -29,7 +30,8 @@ ALPHABET = [
     "Compare.stat", "Compare.getFunc",
     "Touch.OpenFile", "Touch.lock", "Touch.lockfile", "Touch.Chtimes",
     "WriteBlock.IsFull", "WriteBlock.MkdirAll", "WriteBlock.TempFile", "WriteBlock.lock", "WriteBlock.Copy",
-    "WriteBlock.Write#1", "WriteBlock.tmpfile.Close", "WriteBlock.Chtimes", "WriteBlock.Rename",
+    "WriteBlock.Write#1", "WriteBlock.tmpfile.Close", "WriteBlock.Chtimes", "WriteBlock.OpenFile",
+    "WriteBlock.lockfile", "WriteBlock.Rename",
     "Mtime.Stat",
     "Trash.lock", "Trash.OpenFile", "Trash.lockfile", "Trash.Stat", "Trash.Remove", "Trash.Rename",
     "Untrash.ReadDir", "Untrash.Rename",
@@ -105,9 +107,9 @@ def is_lock_probe(scn):
     lockfile step while the other actor is inside its flock section."""
     steps = scn["steps"]
     hold = {}
-    for a, first, inside in (("w", "Touch.lockfile", ("Touch.Chtimes",)),
-                             ("t", "Trash.lockfile", ("Trash.Stat", "Trash.Rename", "Trash.Remove"))):
-        idx = [i for i, st in enumerate(steps) if st["a"] == a and st["l"] == first]
+    for a, firsts, inside in (("w", ("Touch.lockfile", "WriteBlock.lockfile"), ("Touch.Chtimes", "WriteBlock.Rename")),
+                              ("t", ("Trash.lockfile",), ("Trash.Stat", "Trash.Rename", "Trash.Remove"))):
+        idx = [i for i, st in enumerate(steps) if st["a"] == a and st["l"] in firsts]
         if not idx:
             continue
         last = idx[0]
@@ -203,14 +205,14 @@ def run(ctx):
 
     # GEN: design-level checks
     ctx.tlc(SD, "KeepVolume", "MC_C04.cfg" if ctx.thorough else "MC_C04_quick.cfg", timeout=1500,
-            label="exhaustive: contract obligations (except KF-C04-1/2), AckedSurvives, lock discipline")
+            label="exhaustive: contract obligations (no exclusion), AckedSurvives, lock discipline")
     if ctx.thorough:
-        r = ctx.tlc(SD, "KeepVolume", "MC_C04_kf.cfg", timeout=600, must_pass=False,
-                    label="non-vacuity: without the exclusion TLC finds the overwrite race")
+        r = ctx.tlc(SD, "KeepVolume", "MC_C04_nofix.cfg", timeout=600, must_pass=False,
+                    label="non-vacuity: the model of the code before 6f6002f (WBFlock = FALSE) has the overwrite race")
         if r.violated != "NoViolation":
-            raise vlib.InfraError("MC_C04_kf.cfg was expected to refute NoViolation:\n" + r.tail())
+            raise vlib.InfraError("MC_C04_nofix.cfg was expected to refute NoViolation:\n" + r.tail())
         ctx.tlc(SD, "KeepVolume", "MC_C04_x.cfg", timeout=1500,
-                label="exhaustive with untrash / EmptyTrash as a concurrent request")
+                label="exhaustive with untrash / EmptyTrash as a concurrent request (KF-C04-2 excluded by name)")
 
     # GEN: scenarios (one TLC run; families selected by the spec's GenFilter)
     scns, _ = ctx.gen(SD, "KeepVolume", "Gen_C04.cfg" if ctx.thorough else "Gen_C04_quick.cfg", timeout=1500,
